@@ -85,7 +85,7 @@ Definition pred (f : Z) (p : params) : Z :=
   | 19 => obz (constraint_resize (p_ifm_shape p) (p_ofm_shape p) (p_align_corners p))
   | 20 => obz (constraint_resizebi_half_pixel_centers_dims (p_ifm_shape p) (p_ofm_shape p) (p_half_pixel_centers p))
   | 21 => bz (constraint_mean_height_width_product (p_in0_shape p) (p_axis p) (p_ifm_is_int16 p) (p_ifm_is_uint8 p))
-  | 22 => bz (constraint_mean_width (p_in0_shape p))
+  | 22 => bz (constraint_mean_width (p_in0_shape p) (p_axis p))
   | 23 => bz (constraint_mean_depth (p_in0_shape p) (p_axis p))
   | 24 => bz (constraint_argmax_depth (p_in0_shape p))
   | _ => -1
